@@ -173,6 +173,29 @@ fn dump<'tcx>(tcx: TyCtxt<'tcx>, out: &str) {
     }
     let unsafe_blocks = dump_unsafe_blocks(&mut cx);
 
+    // implication closure of the x86 target features the rules may meet (authoritative: rustc's own table)
+    let mut implied = vec![];
+    let is_x86 = tcx.sess.target.arch.to_string().starts_with("x86");
+    if is_x86 {
+        for name in [
+            "sse", "sse2", "sse3", "ssse3", "sse4.1", "sse4.2", "avx", "avx2", "fma", "f16c", "bmi1", "bmi2",
+            "lzcnt", "popcnt", "avx512f", "avx512bw", "avx512vl", "pclmulqdq", "aes",
+        ] {
+            let sym = rustc_span::Symbol::intern(name);
+            let r = std::panic::catch_unwind(std::panic::AssertUnwindSafe(|| {
+                tcx.implied_target_features(sym).iter().map(|s| J::S(s.to_string())).collect::<Vec<_>>()
+            }));
+            if let Ok(v) = r {
+                implied.push((name.to_string(), J::A(v)));
+            }
+        }
+    }
+    let baseline: Vec<J> = tcx
+        .sess
+        .unstable_target_features
+        .iter()
+        .map(|s| J::S(s.to_string()))
+        .collect();
     let is_test = tcx.sess.opts.test;
     let crate_types: Vec<J> = tcx
         .crate_types()
@@ -184,6 +207,9 @@ fn dump<'tcx>(tcx: TyCtxt<'tcx>, out: &str) {
         ("crate".into(), J::S(crate_name.clone())),
         ("test".into(), J::B(is_test)),
         ("crate_types".into(), J::A(crate_types)),
+        ("implied_features".into(), J::O(implied)),
+        ("baseline_features".into(), J::A(baseline)),
+        ("arch".into(), J::S(tcx.sess.target.arch.to_string())),
         ("fns".into(), J::A(fns)),
         ("adts".into(), J::A(adts)),
         ("impls".into(), J::A(impls)),
@@ -397,10 +423,19 @@ fn dump_fn<'tcx>(cx: &mut Cx<'tcx>, ldid: LocalDefId) -> J {
                 ty::UpvarCapture::ByRef(k) => format!("ref:{:?}", k),
             };
             let pty = c.place.ty();
+            // interior mutability of the captured data (peeling references): Freeze or not
+            let mut inner = pty;
+            while let ty::Ref(_, t, _) = inner.kind() {
+                inner = *t;
+            }
+            let env = ty::TypingEnv::post_analysis(tcx, did);
+            let freeze = std::panic::catch_unwind(std::panic::AssertUnwindSafe(|| inner.is_freeze(tcx, env)))
+                .unwrap_or(false);
             captures.push(J::A(vec![
                 J::S(c.to_string(tcx)),
                 cx.ty(pty),
                 J::S(by),
+                J::B(freeze),
             ]));
         }
     }
@@ -568,6 +603,16 @@ fn constant<'tcx>(cx: &mut Cx<'tcx>, caller: DefId, c: &ConstOperand<'tcx>) -> J
         return fn_info(cx, caller, *d, args);
     }
     let mut fields = vec![("ty".to_string(), cx.ty(ty))];
+    // a pointer to a static: name the static
+    if let Const::Val(ConstValue::Scalar(rustc_middle::mir::interpret::Scalar::Ptr(ptr, _)), _) = c.const_ {
+        let aid = ptr.provenance.alloc_id();
+        if let Some(rustc_middle::mir::interpret::GlobalAlloc::Static(sd)) = tcx.try_get_global_alloc(aid) {
+            fields.push(("static".into(), cx.path(sd)));
+        }
+    }
+    if let Const::Unevaluated(uv, _) = c.const_ {
+        fields.push(("item".into(), cx.path(uv.def)));
+    }
     let env = ty::TypingEnv::post_analysis(tcx, caller);
     let mut done = false;
     if ty.is_integral() || ty.is_bool() || ty.is_char() {
